@@ -3,7 +3,7 @@ Driver for C01 (dispatch): stream `lk`
   lk <id> <n> <ep>*n <method> <pathhex> <ver|N> => ok:<epid>:<vars> | err:404 | err:405:<allow>
 -/
 import Driver.RouterCommon
-import DropshotModel.Path
+import DropshotModel.Dispatch
 
 open Dropshot Dropshot.Proto Dropshot.RouterCommon
 
@@ -37,7 +37,13 @@ def handle (line : String) : String :=
         match bsegs.mapM (fun b => utf8String (b.map (·.toUInt8))) with
         | none => bad id "segment-not-utf8"
         | some segs =>
-        let res := Node.lookup t m segs v
+        -- the model's `lookup_route` (`Dispatch.lookupRoute`); segments are UTF-8 here
+        let conv : Bytes → String := fun b => (utf8String (b.map (·.toUInt8))).getD ""
+        let res : Except LookupErr (Endpoint SemVer × Vars) :=
+          match lookupRoute conv t m (path.toUTF8.toList.map (·.toNat)) v with
+          | .ok r => .ok r
+          | .error (.methodNotAllowed a) => .error (.methodNotAllowed a)
+          | .error _ => .error .notFound
         let model := encLookup res
         -- specification, from the flat list of endpoints
         let cands := Cands eps m segs v
